@@ -1569,14 +1569,19 @@ def replay_C13(fi):
                     _zone_from_descr(fi["zone"]), fi["which"]) is None
 
 
-def _c14_one(lat, lon, d, z, which):
+def _c14_one(lat, lon, d, z, which, given=None):
     import astral.moon as moon
     from astral import Observer
     o = Observer(lat, lon)
     tz = z.tzinfo
     rising = which == "moonrise"
     try:
-        got = getattr(moon, which)(o, d, tz)
+        if given is not None:
+            if given[0] != "ok":
+                raise given[1]
+            got = given[1]
+        else:
+            got = getattr(moon, which)(o, d, tz)
         outcome = "none" if got is None else "time"
     except ValueError as exc:
         if not str(exc).startswith("Moon never"):
@@ -1610,10 +1615,45 @@ def _c14_one(lat, lon, d, z, which):
     return None
 
 
+def _c14_sweep(seed):
+    """an almanac loop: one place, consecutive days in ascending order in one process, each
+    answer judged as it was returned in that loop (asking again could repair what a cache broke)"""
+    import zones
+    import astral.moon as moon
+    from astral import Observer
+    rng = random.Random(seed)
+    lat, lon = rng.uniform(-55, 55), rng.uniform(-180, 180)
+    o = Observer(lat, lon)
+    z = zones.fixed(0)
+    d0 = datetime.date.fromordinal(rng.randint(693596 + 10, 767010 - 80))
+    which = rng.choice(["moonrise", "moonset"])
+    for k in range(62):
+        d = d0 + datetime.timedelta(days=k)
+        try:
+            res = ("ok", getattr(moon, which)(o, d, z.tzinfo))
+        except Exception as exc:  # noqa: BLE001
+            res = ("err", exc)
+        try:
+            r = _c14_one(lat, lon, d, z, which, given=res)
+        except Exception as exc:  # noqa: BLE001
+            r = "raised %r" % (exc,)
+        if r:
+            return {"clause": r, "sweep_seed": seed,
+                    "sequence": "%s for Observer(%r, %r) on %s and the %d following days, in order; "
+                                "this is the answer for %s" % (which, lat, lon, d0, k, d)}
+    return None
+
+
 def search_C14(rng, deadline, broken):
     import gens
     import zones
+    n = 0
     while time.time() < deadline:
+        n += 1
+        if n % 25 == 0:
+            r = _c14_sweep(rng.randrange(1 << 40))
+            if r:
+                return r
         lat, lon = rng.uniform(-60, 60), gens.rand_lon(rng)
         d = gens.rand_date(rng, wide=False)
         z = zones.rand_zone(rng, d)
@@ -1629,6 +1669,8 @@ def search_C14(rng, deadline, broken):
 
 
 def replay_C14(fi):
+    if "sweep_seed" in fi:
+        return _c14_sweep(fi["sweep_seed"]) is None
     return _c14_one(fi["latitude"], fi["longitude"], datetime.date.fromisoformat(fi["date"]),
                     _zone_from_descr(fi["zone"]), fi["which"]) is None
 
